@@ -126,7 +126,7 @@ impl<T: Item + ItemA + 'static, const WK: bool> Sess<T, WK> {
 
     /// builds the future of an operation as an erased poll closure
     fn make_future(&mut self, words: &[&str]) -> Option<(usize, Held<T>)> {
-        let num = |i: usize| -> usize { words[i].parse().unwrap() };
+        let num = |i: usize| -> usize { words[i].trim_start_matches('=').parse().unwrap() };
         macro_rules! it { ($f:expr) => { match &mut $f { Slot::Att(b) => stat(b), _ => return None } } }
         macro_rules! fut { ($k:expr, $f:expr, $map:expr) => {{ let mut f = $f; let h: Held<T> = Box::new(move |w: &Waker| { let mut cx = Context::from_waker(w);
             match Pin::new(&mut f).poll(&mut cx) { Poll::Pending => Poll::Pending, Poll::Ready(None) => Poll::Ready(None), Poll::Ready(Some(x)) => Poll::Ready(Some($map(x))) } }); Some(($k, h)) }} }
@@ -188,7 +188,7 @@ impl<T: Item + ItemA + 'static, const WK: bool> Sess<T, WK> {
     }
 
     fn step(&mut self, words: &[&str]) -> String {
-        let num = |i: usize| -> usize { words[i].parse().unwrap() };
+        let num = |i: usize| -> usize { words[i].trim_start_matches('=').parse().unwrap() };
         let bad = "bad".to_string();
         match words[0] {
             "task" => { self.task = num(1); "unit".into() }
@@ -271,7 +271,7 @@ impl<T: Item + ItemA + 'static, const WK: bool> Sess<T, WK> {
     }
 
     fn direct(&mut self, words: &[&str]) -> String {
-        let num = |i: usize| -> usize { words[i].parse().unwrap() };
+        let num = |i: usize| -> usize { words[i].trim_start_matches('=').parse().unwrap() };
         let bad = "bad".to_string();
         if words.len() < 2 { return bad; }
         let k = match words[1] { "P" | "W" | "C" => kidx(words[1]), _ => return bad };
